@@ -213,8 +213,13 @@ OutsideCheckEarly(fl, fs, parent) ==
   IN ~Contained(fl, loc)
 
 \* MkdirAllParent + OutsideCheck in the order the flags dictate. checked = FALSE: no check at all.
+\* Repaired order (mk = FALSE): ONE check, before anything is created (everything MkdirAll then creates lies below the
+\* resolved deepest existing ancestor, so a second check after MkdirAll would decide the same).
+\* As-built order (mk = TRUE): MkdirAll first, then the strict check.
 Prepare(fl, checked, fs, parent) ==
-  IF checked /\ ~fl["mk"] /\ OutsideCheckEarly(fl, fs, parent) THEN [res |-> "skip", fs |-> fs]
+  IF checked /\ ~fl["mk"] THEN
+    IF OutsideCheckEarly(fl, fs, parent) THEN [res |-> "skip", fs |-> fs]
+    ELSE LET m == MkdirAll(fs, parent) IN [res |-> IF m.ok THEN "go" ELSE "fail", fs |-> m.fs]
   ELSE LET m == MkdirAll(fs, parent) IN
        IF ~m.ok THEN [res |-> "fail", fs |-> m.fs]
        ELSE IF checked /\ OutsideCheck(fl, m.fs, parent) THEN [res |-> "skip", fs |-> m.fs]
